@@ -251,6 +251,92 @@ def build():
         d = rbytes(r, r.choice([9, 9, 5]))
         return FiveBitChecksum.calculate(d), [d]
 
+    def vbptc_forms(r):
+        """every input form the VBPTC encoders accept (message, message with its check field, the fully de-interleaved matrix) and
+        every extractor, each used twice in one thunk"""
+        from okdmr.dmrlib.etsi.fec.vbptc_128_72 import VBPTC12873 as A_
+        from okdmr.dmrlib.etsi.fec.vbptc_32_11 import VBPTC3211 as C_
+        from okdmr.dmrlib.etsi.fec.vbptc_68_28 import VBPTC6828 as B_
+        out, bufs = [], []
+        for _ in range(2):
+            a, b, c = rbits(r, 72), rbits(r, 28), rbits(r, 11)
+            ea, eb = track(A_.encode(a)), track(B_.encode(b))
+            full_a, full_b = track(A_.deinterleave_all_bits(ea)), track(B_.deinterleave_all_bits(eb))
+            with_a, with_b = track(A_.deinterleave_data_bits(ea, include_cs5=True)), track(B_.deinterleave_data_bits(eb, include_crc8=True))
+            forms = []
+            for enc, xs in ((A_.encode, (a, with_a, full_a)), (B_.encode, (b, with_b, full_b))):
+                for x in xs:
+                    try:
+                        forms.append(enc(x))
+                    except (AssertionError, ValueError, IndexError) as ex:
+                        forms.append(ex)
+            ec0, ec1 = track(C_.encode(c, even_parity=True)), track(C_.encode(c, even_parity=False))
+            out.append((forms, A_.deinterleave_cs5_bits(ea), B_.deinterleave_crc8_bits(eb), A_.deinterleave_data_bits(ea, include_cs5=False),
+                        B_.deinterleave_data_bits(eb, include_crc8=False), ec0, ec1, C_.deinterleave_data_bits(ec0), C_.deinterleave_all_bits(ec1)))
+            bufs += [a, b, c, ea, eb, full_a, full_b, with_a, with_b, ec0, ec1]
+        return out, bufs
+
+    add("vbptc_forms", vbptc_forms, 4)
+
+    def talker_alias_text(r):
+        """the talker alias text codec of the four alias formats: whole aliases, and the 6 / 7 octet pieces an alias is sent in
+        (a piece may end in the middle of a character - whatever decoding it does, the next decode must not see it)"""
+        from okdmr.dmrlib.etsi.layer3.elements.talker_alias_data_format import TalkerAliasDataFormat as F
+        text = r.choice(["OK1DMR Jan", "žluťoučký kůň", "中文 radio 7", "Übung Ωμέγα", "abc"])
+        out = []
+        for f in F:
+            try:
+                raw = f.encode(text)
+            except (UnicodeEncodeError, AttributeError) as ex:
+                out.append((f.name, ex))
+                continue
+            res = [raw]
+            for piece in (raw, raw[:6], raw[:7], raw[6:13], raw[:1], raw[-3:], raw):
+                try:
+                    res.append(f.decode(piece))
+                except UnicodeDecodeError as ex:
+                    res.append(ex)
+            out.append((f.name, res))
+        return out, []
+
+    add("talker_alias_text", talker_alias_text, 5)
+
+    def elements_all(r):
+        """every information-element enumeration of layer 2 / layer 3: all members serialised, all values of the element's width
+        parsed (member, documented error) - found by walking the packages, so that new elements are covered without being listed"""
+        import enum
+        import importlib
+        import pkgutil
+        from bitarray.util import int2ba
+        out = []
+        for pkg in ("okdmr.dmrlib.etsi.layer2.elements", "okdmr.dmrlib.etsi.layer3.elements", "okdmr.dmrlib.hytera.ipsc_elements"):
+            P = importlib.import_module(pkg)
+            for mi in sorted(pkgutil.iter_modules(P.__path__), key=lambda m: m.name):
+                M = importlib.import_module(pkg + "." + mi.name)
+                for cn in sorted(dir(M)):
+                    C = getattr(M, cn)
+                    if not (isinstance(C, type) and issubclass(C, enum.Enum) and C.__module__ == M.__name__):
+                        continue
+                    rec = [cn]
+                    w = None
+                    for m in C:
+                        try:
+                            b = m.as_bits() if hasattr(m, "as_bits") else None
+                            rec.append((m.name, b))
+                            if b is not None:
+                                w = len(b)
+                        except Exception as ex:  # noqa
+                            rec.append((m.name, ex))
+                    if w is not None and w <= 8 and hasattr(C, "from_bits"):
+                        for v in range(1 << w):
+                            try:
+                                rec.append((v, C.from_bits(int2ba(v, length=w))))
+                            except Exception as ex:  # noqa
+                                rec.append((v, ex))
+                    out.append(rec)
+        return out, []
+
+    add("elements_all", elements_all, 1)
     add("hamming", hamming, 6)
     add("hamming_fix", hamming_fix, 3, in_place=True)
     add("golay_qr", golay_qr, 3)
